@@ -281,30 +281,36 @@ def popN : Nat → List Bytes → M (List Bytes)
     let (_, l') ← pyIdx (pop? l)
     popN n l'
 
-def checkMultiSig (c : Ctx) (fl : Flags) (sop : Nat) (script : Bytes) (st : St) : M St := do
-  if st.stack.length < 1 then raiseNamed sop st
+/-- `if len(stack) and SCRIPT_VERIFY_NULLDUMMY in flags: if stack[-1] != b'': raise …` -/
+def nullDummyCheck (fl : Flags) (sop : Nat) (st : St) : M Unit :=
+  if st.stack.length ≠ 0 ∧ fl.nullDummy then do
+    let top ← pyIdx (getTop? st.stack 1)
+    if top ≠ [] then raiseNamed sop st else .ok ()
+  else .ok ()
+
+/-- `_CheckMultiSig`.  (`err_raiser` always raises, so each `if …: err_raiser(…)` guard is written
+    with the continuation in its `else` branch.) -/
+def checkMultiSig (c : Ctx) (fl : Flags) (sop : Nat) (script : Bytes) (st : St) : M St :=
+  if st.stack.length < 1 then raiseNamed sop st else do
   let keysVch ← pyIdx (getTop? st.stack 1)
   let keysCount ← castToBigNum keysVch st
-  if keysCount < 0 ∨ keysCount > 20 then raiseNamed sop st
-  let ikey : Int := 2
-  let i : Int := 2 + keysCount
+  if keysCount < 0 ∨ keysCount > 20 then raiseNamed sop st else
+  -- ikey = 2; i = 2 + keys_count; nOpCount[0] += keys_count
   let st := { st with nOpCount := st.nOpCount + keysCount.toNat }
-  if st.nOpCount > MAX_OPS_PER_SCRIPT then raise st
-  if (st.stack.length : Int) < i then raiseNamed sop st
-  let sigsVch ← pyIdx (getTop? st.stack i)
+  if st.nOpCount > MAX_OPS_PER_SCRIPT then raise st else
+  if (st.stack.length : Int) < 2 + keysCount then raiseNamed sop st else do
+  let sigsVch ← pyIdx (getTop? st.stack (2 + keysCount))
   let sigsCount ← castToBigNum sigsVch st
-  if sigsCount < 0 ∨ sigsCount > keysCount then raiseNamed sop st
-  let isig : Int := i + 1
-  let i : Int := isig + sigsCount
-  if (st.stack.length : Int) < i - 1 then raiseNamed sop st
-  if (st.stack.length : Int) < i then raiseNamed sop st
-  let script ← msDropSigs st isig sigsCount.toNat 0 script
-  let success ← if sigsCount > 0 then msLoop c sop script st isig sigsCount ikey keysCount else .ok true
-  let stack ← popN (i - 1).toNat st.stack
+  if sigsCount < 0 ∨ sigsCount > keysCount then raiseNamed sop st else
+  -- isig = i + 1; i = isig + sigs_count
+  if (st.stack.length : Int) < 2 + keysCount + 1 + sigsCount - 1 then raiseNamed sop st else
+  if (st.stack.length : Int) < 2 + keysCount + 1 + sigsCount then raiseNamed sop st else do
+  let script ← msDropSigs st (2 + keysCount + 1) sigsCount.toNat 0 script
+  let success ←
+    if sigsCount > 0 then msLoop c sop script st (2 + keysCount + 1) sigsCount 2 keysCount else .ok true
+  let stack ← popN (2 + keysCount + 1 + sigsCount - 1).toNat st.stack
   let st := { st with stack := stack }
-  if stack.length ≠ 0 ∧ fl.nullDummy then
-    let top ← pyIdx (getTop? stack 1)
-    if top ≠ [] then raiseNamed sop st
+  nullDummyCheck fl sop st
   let (_, stack) ← pyIdx (pop? stack)
   let st := { st with stack := stack }
   if sop = 0xae then
@@ -313,23 +319,42 @@ def checkMultiSig (c : Ctx) (fl : Flags) (sop : Nat) (script : Bytes) (st : St) 
 
 /-! ### _UnaryOp / _BinOp -/
 
+/-- the `if opcode == … elif …` chain of `_UnaryOp` -/
+def unaryVal (sop : Nat) (bn : Int) : M Int :=
+  if sop = 0x8b then .ok (bn + 1)
+  else if sop = 0x8c then .ok (bn - 1)
+  else if sop = 0x8f then .ok (-bn)
+  else if sop = 0x90 then .ok (if bn < 0 then -bn else bn)
+  else if sop = 0x91 then .ok (if bn = 0 then 1 else 0)
+  else if sop = 0x92 then .ok (if bn ≠ 0 then 1 else 0)
+  else .error (.py "AssertionError")
+
 def unaryOp (sop : Nat) (st : St) : M St := do
   if st.stack.length < 1 then raiseNamed sop st
   let top ← pyIdx (getTop? st.stack 1)
   let bn ← castToBigNum top st
   let (_, stack) ← pyIdx (pop? st.stack)
-  let bn ←
-    if sop = 0x8b then .ok (bn + 1)
-    else if sop = 0x8c then .ok (bn - 1)
-    else if sop = 0x8f then .ok (-bn)
-    else if sop = 0x90 then .ok (if bn < 0 then -bn else bn)
-    else if sop = 0x91 then .ok (if bn = 0 then 1 else 0)
-    else if sop = 0x92 then .ok (if bn ≠ 0 then 1 else 0)
-    else (.error (.py "AssertionError") : M Int)
+  let bn ← unaryVal sop bn
   let v ← bn2vch bn
   .ok { st with stack := v :: stack }
 
 def b2i (b : Bool) : Int := if b then 1 else 0
+
+/-- the `if opcode == … elif …` chain of `_BinOp` (OP_NUMEQUALVERIFY is handled by the caller) -/
+def binaryVal (sop : Nat) (bn1 bn2 : Int) : M Int :=
+  if sop = 0x93 then .ok (bn1 + bn2)
+  else if sop = 0x94 then .ok (bn1 - bn2)
+  else if sop = 0x9a then .ok (b2i (bn1 ≠ 0 ∧ bn2 ≠ 0))
+  else if sop = 0x9b then .ok (b2i (bn1 ≠ 0 ∨ bn2 ≠ 0))
+  else if sop = 0x9c then .ok (b2i (bn1 = bn2))
+  else if sop = 0x9e then .ok (b2i (bn1 ≠ bn2))
+  else if sop = 0x9f then .ok (b2i (bn1 < bn2))
+  else if sop = 0xa0 then .ok (b2i (bn1 > bn2))
+  else if sop = 0xa1 then .ok (b2i (bn1 ≤ bn2))
+  else if sop = 0xa2 then .ok (b2i (bn1 ≥ bn2))
+  else if sop = 0xa3 then .ok (if bn1 < bn2 then bn1 else bn2)
+  else if sop = 0xa4 then .ok (if bn1 > bn2 then bn1 else bn2)
+  else .error (.py "AssertionError")
 
 def binOp (sop : Nat) (st : St) : M St := do
   if st.stack.length < 2 then raiseNamed sop st
@@ -345,20 +370,7 @@ def binOp (sop : Nat) (st : St) : M St := do
       .ok { st with stack := s }
     else raiseNamed sop st
   else
-    let bn ←
-      if sop = 0x93 then .ok (bn1 + bn2)
-      else if sop = 0x94 then .ok (bn1 - bn2)
-      else if sop = 0x9a then .ok (b2i (bn1 ≠ 0 ∧ bn2 ≠ 0))
-      else if sop = 0x9b then .ok (b2i (bn1 ≠ 0 ∨ bn2 ≠ 0))
-      else if sop = 0x9c then .ok (b2i (bn1 = bn2))
-      else if sop = 0x9e then .ok (b2i (bn1 ≠ bn2))
-      else if sop = 0x9f then .ok (b2i (bn1 < bn2))
-      else if sop = 0xa0 then .ok (b2i (bn1 > bn2))
-      else if sop = 0xa1 then .ok (b2i (bn1 ≤ bn2))
-      else if sop = 0xa2 then .ok (b2i (bn1 ≥ bn2))
-      else if sop = 0xa3 then .ok (if bn1 < bn2 then bn1 else bn2)
-      else if sop = 0xa4 then .ok (if bn1 > bn2 then bn1 else bn2)
-      else (.error (.py "AssertionError") : M Int)
+    let bn ← binaryVal sop bn1 bn2
     let (_, s) ← pyIdx (pop? st.stack)
     let (_, s) ← pyIdx (pop? s)
     let v ← bn2vch bn
@@ -657,26 +669,31 @@ def execOp (c : Ctx) (fl : Flags) (script : Bytes) (op : RawOp) (fExec : Bool) (
   else if sop = 0xa5 then opWithin sop st
   else raise st                                             -- 'unsupported opcode'
 
+/-- `if sop > OP_16: nOpCount[0] += 1; if nOpCount[0] > MAX_SCRIPT_OPCODES: raise` -/
+def countOp (sop : Nat) (st : St) : M St :=
+  if sop > 0x60 then
+    let st := { st with nOpCount := st.nOpCount + 1 }
+    if st.nOpCount > MAX_OPS_PER_SCRIPT then raise st else .ok st
+  else .ok st
+
+/-- the push arm and the opcode arm of the loop body -/
+def dispatch (c : Ctx) (fl : Flags) (script : Bytes) (op : RawOp) (fExec : Bool) (st : St) : M St :=
+  if op.opcode ≤ 0x4e then
+    match op.data with
+    | none => .error (.py "TypeError")                       -- len(None); raw_iter never yields it
+    | some d =>
+      if d.length > MAX_SCRIPT_ELEMENT_SIZE then raise st
+      else if fExec then .ok { st with stack := d :: st.stack }       -- D5 repaired: no `continue`
+      else .ok st
+  else if fExec ∨ (0x63 ≤ op.opcode ∧ op.opcode ≤ 0x68) then execOp c fl script op fExec st
+  else .ok st
+
 /-- one iteration of the `for (sop, sop_data, sop_pc) in scriptIn.raw_iter():` loop -/
-def step (c : Ctx) (fl : Flags) (script : Bytes) (op : RawOp) (st : St) : M St := do
-  let sop := op.opcode
+def step (c : Ctx) (fl : Flags) (script : Bytes) (op : RawOp) (st : St) : M St :=
   let fExec := checkExec st.vfExec
-  if sop ∈ disabledOpcodes then raiseNamed sop st
-  let st ←
-    if sop > 0x60 then
-      let st := { st with nOpCount := st.nOpCount + 1 }
-      if st.nOpCount > MAX_OPS_PER_SCRIPT then raise st else (.ok st : M St)
-    else .ok st
-  let st ←
-    if sop ≤ 0x4e then
-      match op.data with
-      | none => (.error (.py "TypeError") : M St)            -- len(None); raw_iter never yields it
-      | some d =>
-        if d.length > MAX_SCRIPT_ELEMENT_SIZE then raise st
-        else if fExec then .ok { st with stack := d :: st.stack }     -- D5 repaired: no `continue`
-        else .ok st
-    else if fExec ∨ (0x63 ≤ sop ∧ sop ≤ 0x68) then execOp c fl script op fExec st
-    else .ok st
+  if op.opcode ∈ disabledOpcodes then raiseNamed op.opcode st else do
+  let st ← countOp op.opcode st
+  let st ← dispatch c fl script op fExec st
   if st.stack.length + st.alt.length > MAX_STACK_SIZE then raise st else .ok st
 
 /-- the `for` loop over the lazily produced operations; `tail` is the error `raw_iter` raises
@@ -692,14 +709,14 @@ def loop (c : Ctx) (fl : Flags) (script : Bytes) (tail : Option IterErr) :
     loop c fl script tail ops st'
 
 /-- `_EvalScript(stack, scriptIn, txTo, inIdx, flags)`; returns the final stack -/
-def evalScriptRaw (c : Ctx) (fl : Flags) (stack : List Bytes) (script : Bytes) : M (List Bytes) := do
+def evalScriptRaw (c : Ctx) (fl : Flags) (stack : List Bytes) (script : Bytes) : M (List Bytes) :=
   if script.length > MAX_SCRIPT_SIZE then
     .error (.eval ⟨stack, [], 0⟩)          -- altstack / nOpCount attributes are None here
+  else do
   let it := rawIter script
   let st ← loop c fl script it.2 it.1
     { stack := stack, alt := [], vfExec := [], pbegin := 0, nOpCount := 0 }
-  if st.vfExec.length ≠ 0 then .error (.eval ⟨st.stack, [], 0⟩)
-  .ok st.stack
+  if st.vfExec.length ≠ 0 then .error (.eval ⟨st.stack, [], 0⟩) else .ok st.stack
 
 /-- `EvalScript`: converts CScriptInvalidError into EvalScriptError (only `stack` is attached) -/
 def evalScript (c : Ctx) (fl : Flags) (stack : List Bytes) (script : Bytes) : M (List Bytes) :=
@@ -707,31 +724,40 @@ def evalScript (c : Ctx) (fl : Flags) (stack : List Bytes) (script : Bytes) : M 
   | .error (.invalid cap) => .error (.eval ⟨cap.stack, [], 0⟩)
   | r => r
 
+/-- `if len(stack) == 0: raise …; if not _CastToBool(stack[-1]): raise …` -/
+def checkTopTrue (stack : List Bytes) : M Unit :=
+  if stack.length = 0 then .error .verify else do
+  let top ← pyIdx (getTop? stack 1)
+  if !castToBool top then .error .verify else .ok ()
+
+/-- the `if SCRIPT_VERIFY_P2SH in flags and scriptPubKey.is_p2sh():` block; returns the new `stack` -/
+def verifyP2sh (c : Ctx) (fl : Flags) (scriptSig : Bytes) (stackCopy : Option (List Bytes)) :
+    M (List Bytes) :=
+  if !isPushOnly scriptSig then .error .verify else
+  match stackCopy with
+  | none => .error (.py "UnboundLocalError")
+  | some stack =>
+    if stack.length = 0 then .error (.py "AssertionError") else do     -- `assert len(stack)`
+    let (pubKey2, stack) ← pyIdx (pop? stack)
+    let stack ← evalScript c fl stack pubKey2
+    checkTopTrue stack
+    .ok stack
+
+/-- the `if SCRIPT_VERIFY_CLEANSTACK in flags:` block -/
+def verifyCleanStack (fl : Flags) (stack : List Bytes) : M Unit :=
+  if fl.cleanStack then
+    if !fl.p2sh then .error (.py "AssertionError")                    -- D6: `assert P2SH in flags`
+    else if stack.length ≠ 1 then .error .verify else .ok ()
+  else .ok ()
+
 /-- `VerifyScript(scriptSig, scriptPubKey, txTo, inIdx, flags)` -/
 def verifyScript (c : Ctx) (fl : Flags) (scriptSig scriptPubKey : Bytes) : M Unit := do
   let stack ← evalScript c fl [] scriptSig
   let stackCopy : Option (List Bytes) := if fl.p2sh then some stack else none
   let stack ← evalScript c fl stack scriptPubKey
-  if stack.length = 0 then .error .verify
-  let top ← pyIdx (getTop? stack 1)
-  if !castToBool top then .error .verify
+  checkTopTrue stack
   let stack ←
-    if fl.p2sh ∧ isP2sh scriptPubKey then do
-      if !isPushOnly scriptSig then .error .verify
-      let stack ← match stackCopy with
-        | none => (.error (.py "UnboundLocalError") : M (List Bytes))
-        | some s => .ok s
-      if stack.length = 0 then .error (.py "AssertionError")          -- `assert len(stack)`
-      let (pubKey2, stack) ← pyIdx (pop? stack)
-      let stack ← evalScript c fl stack pubKey2
-      if stack.length = 0 then .error .verify
-      let top ← pyIdx (getTop? stack 1)
-      if !castToBool top then .error .verify
-      (.ok stack : M (List Bytes))
-    else .ok stack
-  if fl.cleanStack then
-    if !fl.p2sh then .error (.py "AssertionError")                    -- D6: `assert P2SH in flags`
-    if stack.length ≠ 1 then .error .verify
-  .ok ()
+    if fl.p2sh ∧ isP2sh scriptPubKey then verifyP2sh c fl scriptSig stackCopy else .ok stack
+  verifyCleanStack fl stack
 
 end BtcVerif.Model.ScriptEval
